@@ -1101,6 +1101,234 @@ def sec_xml(cx):
 
 
 # --------------------------------------------------------------------------
+# XML, model on tokens: Model/Xml.v (yq's fold over the token stream, the grouping, the encoder as a token writer) against
+# the implementation, with encoding/xml itself (harness op c14_xmltok, no yqlib) as the tokenizer on both sides
+# --------------------------------------------------------------------------
+XML_IMPORTS = "From YQ Require Import Base.Str Model.Xml."
+
+
+def coq_prefs(ap, cn, keep_ns=True, skip_proc=False, skip_dir=False):
+    b = lambda x: "true" if x else "false"
+    return "(mkXprefs %s %s %s %s %s %s %s)" % (vlib.coq_str(ap), vlib.coq_str(cn), vlib.coq_str("+p_"), vlib.coq_str("+directive"), b(keep_ns), b(skip_proc), b(skip_dir))
+
+
+def tok_fields(t):
+    return {k: (vlib.b64d(v) if isinstance(v, str) and k != "t" else v) for k, v in t.items()}
+
+
+def coq_tok(t):
+    t = tok_fields(t)
+    nm = lambda sp, lo: "(%s, %s)" % (vlib.coq_str(sp), vlib.coq_str(lo))
+    if t["t"] == "S":
+        attrs = ";".join("(%s, %s)" % (nm(vlib.b64d(a[0]), vlib.b64d(a[1])), vlib.coq_str(vlib.b64d(a[2]))) for a in t["a"])
+        return "TStart %s [%s]" % (nm(t["sp"], t["lo"]), attrs)
+    if t["t"] == "C":
+        return "TChar " + vlib.coq_str(t["v"])
+    if t["t"] == "E":
+        return "TEnd " + nm(t["sp"], t["lo"])
+    if t["t"] == "M":
+        return "TComment " + vlib.coq_str(t["v"])
+    if t["t"] == "P":
+        return "TProcInst %s %s" % (vlib.coq_str(t["target"]), vlib.coq_str(t["v"]))
+    return "TDirective " + vlib.coq_str(t["v"])
+
+
+def ser_tok(t):
+    t = tok_fields(t)
+    z = lambda b: b + b"\0"
+    if t["t"] == "S":
+        return b"<" + z(t["sp"]) + z(t["lo"]) + b"".join(z(vlib.b64d(a[0])) + z(vlib.b64d(a[1])) + z(vlib.b64d(a[2])) for a in t["a"]) + b">"
+    if t["t"] == "C":
+        return b"C" + z(t["v"])
+    if t["t"] == "E":
+        return b"/" + z(t["sp"]) + z(t["lo"])
+    if t["t"] == "M":
+        return b"M" + z(t["v"])
+    if t["t"] == "P":
+        return b"P" + z(t["target"]) + z(t["v"])
+    return b"D" + z(t["v"])
+
+
+def tok_blank(t):
+    return t["t"] == "C" and all(c <= 32 for c in vlib.b64d(t["v"]))
+
+
+def ser_dump(d):
+    """the decoded document of the implementation in the serialisation of Model/Xml.v ser_xval (None: outside the value type)"""
+    if d["k"] == "s":
+        if d["t"] == "!!null":
+            return b"N" if sval(d) == b"" else None
+        return b"S" + sval(d) + b"\0" if d["t"] == "!!str" else None
+    if d["k"] == "q":
+        parts = [ser_dump(c) for c in d["c"]]
+        return None if any(p is None for p in parts) else b"[" + b"".join(parts) + b"]"
+    if d["k"] == "m":
+        out = b"{"
+        for i in range(0, len(d["c"]), 2):
+            v = ser_dump(d["c"][i + 1])
+            if v is None or d["c"][i]["k"] != "s":
+                return None
+            out += sval(d["c"][i]) + b"\0" + v
+        return out + b"}"
+    return None
+
+
+def coq_xval(v):
+    """python document (None, str, list, dict) -> Coq xval"""
+    if v is None:
+        return "XNull"
+    if isinstance(v, str):
+        return "XStr " + vlib.coq_str(v)
+    if isinstance(v, list):
+        return "XSeq [" + ";".join(coq_xval(x) for x in v) + "]"
+    return "XMap [" + ";".join("(%s, %s)" % (vlib.coq_str(k), coq_xval(x)) for k, x in v.items()) + "]"
+
+
+def xval_node(v):
+    if v is None:
+        return S("", "!!null")
+    if isinstance(v, str):
+        return S(v)
+    if isinstance(v, list):
+        return Q([xval_node(x) for x in v])
+    return M([(k, xval_node(x)) for k, x in v.items()])
+
+
+XML_ADV = [
+    "<a>1</a>", "<r><b>1</b><c>2</c><b>3</b></r>", "<a>x<b>1</b>y</a>", "<a>t<![CDATA[<x>]]>u</a>", "<a>x<!-- c -->y</a>", "<a> x </a>", "</z><a>1</a>", "<a><b>",
+    "<a>1</a><b>2</b><a>3</a>", "<?xml version=\"1.0\"?><!DOCTYPE r><r p:q=\"1\" q=\"2\"><?pi do it?><p:e>1</p:e><e>2</e></r>", "<r +content=\"x\"/>", "text<a/>", "<!-- c --><a/>",
+    "<a><b/><b/></a>", "<a x=\"\"></a>", "<a><x>1</x>t<x>2</x></a>", " \n<a>1</a>\n", "<a>1</a>trailing", "<a><b>1</b></a></a><c>2</c>", "<r><k>1</k><k><k>2</k></k></r>",
+]
+XDOC_KEYS = ["a", "b", "item", "+@id", "+@x", "+content", "+p_pi", "+directive", "+p_xml", "_u", "c-d"]
+
+
+def gen_xdoc(rng, depth=0):
+    """documents for the encoder: strings, nulls, sequences, maps over key classes (attributes, content, elements, proc-insts, directives)"""
+    r = rng.random()
+    if depth >= 3 or r < 0.4:
+        return None if rng.random() < 0.15 else gen_xml_text(rng) + rng.choice(["", "", " "])
+    if r < 0.55:
+        return [gen_xdoc(rng, depth + 1) for _ in range(rng.randrange(0, 4))]
+    d = {}
+    for k in rng.sample(XDOC_KEYS, rng.randrange(0, 5)):
+        if k.startswith(("+@", "+content", "+p_", "+directive")) and rng.random() < 0.85:
+            d[k] = (re.sub(r"[^a-z0-9 =.]", "", gen_xml_text(rng)) or "x") if k.startswith(("+p_", "+directive")) else gen_xml_text(rng)
+        else:
+            d[k] = gen_xdoc(rng, depth + 1)
+    return d
+
+
+def xdoc_safe(v, top=True):
+    """keep clear of what the printer of encoding/xml rejects or rewrites (library contract, not yq's logic)"""
+    if isinstance(v, dict):
+        for k, x in v.items():
+            if k.startswith("+p_xml") and not (top and isinstance(x, str)):
+                return False
+            if k.startswith("+p_") and (k == "+p_" or not isinstance(x, str)):
+                return False
+            if k == "+directive" and not isinstance(x, str):
+                return False
+            if (k == "+directive" or k.startswith("+p_")) and (x != x.strip() or x == "" or not re.fullmatch(r"[A-Za-z0-9 =.\"]*", x)):
+                return False
+            if k in ("+@",) or not xdoc_safe(x, False):
+                return False
+        return True
+    if isinstance(v, list):
+        return all(xdoc_safe(x, False) for x in v)
+    return True
+
+
+def xdoc_rekey(v):
+    """the same document under attribute prefix _ and content name #text"""
+    if isinstance(v, dict):
+        return {("_" + k[2:] if k.startswith("+@") else "#text" if k == "+content" else "u" if k in ("_u", "#text") else k): xdoc_rekey(x) for k, x in v.items()}
+    if isinstance(v, list):
+        return [xdoc_rekey(x) for x in v]
+    return v
+
+
+@section
+def sec_xml_model(cx):
+    chk, rng = cx.chk, cx.rng
+    # ---------------- decoder: text -> tokens (encoding/xml) -> model  ==  yq -p=xml ----------------
+    texts = []
+    elems = [gen_elem(rng) for _ in range(cx.n(200, 4000))]
+    for e in elems:
+        t = xml_write(interleave_elem(rng, e) if rng.random() < 0.5 else e, rng, "", rng.random() < 0.6)
+        if rng.random() < 0.3:
+            t = rng.choice(['<?xml version="1.0"?>\n', "<!DOCTYPE r>\n", "<!-- head -->", "<?pi x?>"]) + t
+        texts.append(t)
+    for _ in range(cx.n(150, 3000)):       # token soup: unbalanced tags, mixed content, CDATA, comments, namespaces
+        t = "".join(rng.choice(["<a>", "</a>", "<b>", "</b>", "<b/>", "<n:c k=\"v\" n:k=\"w\">", "</n:c>", "x", " y ", "<![CDATA[z]]>", "<!--c-->", "<?p i?>", "&amp;", "\n"])
+                    for _ in range(rng.randrange(1, 9)))
+        texts.append(t)
+    texts += XML_ADV
+    prefs = [rng.choice([{}, {}, {"xml_attr": "_", "xml_content": "#text"}, {"xml_keep_ns": False}, {"xml_skip_proc": True, "xml_skip_dir": True}]) for _ in texts]
+    treq = vlib.yqh_parallel([{"op": "c14_xmltok", "text_b64": vlib.b64e(t)} for t in texts])
+    dreq = vlib.yqh_parallel([dict({"op": "c14_dec", "fmt": "xml", "text_b64": vlib.b64e(t)}, **pf) for t, pf in zip(texts, prefs)])
+    cases, inputs = [], []
+    for t, pf, tr, dr in zip(texts, prefs, treq, dreq):
+        rp = {"text": t, "text_b64": vlib.b64e(t), "prefs": pf}
+        if dr is None or dr.get("panic") or dr.get("timeout") or dr.get("crash") or dr.get("harness_error"):
+            cx.viol("xmltok", dict(rp, response=dr), "xml decoder crashed")
+            continue
+        chk.count(("xmlmodel-dec", t, json.dumps(pf)), nontrivial=ok(dr))
+        if tr is None or tr.get("err") or b"\0" in t.encode():
+            continue           # the tokenizer rejects the text: library side (yq returns its error)
+        toks = tr["toks"]
+        if any(ord(ch) > 127 for ch in t) and False:
+            continue
+        if ok(dr):
+            obs = ser_dump(dr["node"]) if dr.get("node") else None
+            obs = b"O" + obs if obs is not None else b"?"
+        else:
+            obs = b"E"
+        p = coq_prefs(pf.get("xml_attr", "+@"), pf.get("xml_content", "+content"), pf.get("xml_keep_ns", True), pf.get("xml_skip_proc", False), pf.get("xml_skip_dir", False))
+        cases.append(("(%s, [%s])" % (p, ";".join(coq_tok(x) for x in toks)), obs))
+        inputs.append(rp)
+    cx.correspond("xmldecode", XML_IMPORTS, "(fun c => xml_decode_obs (fst c) (snd c))", cases, inputs, "Model/Xml.v decode_toks vs decoder_xml.go (tokens from encoding/xml)")
+
+    # ---------------- encoder: document -> yq -o=xml -> tokens (encoding/xml)  ==  model token list ----------------
+    docs = []
+    for e in elems[:: 2]:
+        docs.append(({e[0]: xml_value_py(e, "+@", "+content")}, {}))
+    for _ in range(cx.n(200, 4000)):
+        d = {k: (gen_xdoc(rng, 1) if not k.startswith("+") else "DOCTYPE x" if k == "+directive" else rng.choice(["version=\"1.0\"", "a b"]))
+             for k in rng.sample(["r", "a", "+p_xml", "+directive", "+p_top", "b"], rng.randrange(1, 4))}
+        if xdoc_safe(d):
+            if rng.random() < 0.3:
+                docs.append((xdoc_rekey(d), {"xml_attr": "_", "xml_content": "#text"}))
+            else:
+                docs.append((d, {}))
+    docs += [({"a": {"+@x": ["v"]}}, {}), ({"a": [["x", "y"], "z"]}, {}), ({"a": {"+content": ["x", "y"], "b": "1"}}, {}), ({"a": {"b": "1", "+content": "t", "+@k": "v"}}, {}),
+             ("scalar", {}), (None, {}), ({"a": {}}, {}), ({"a": []}, {})]
+    ereq = vlib.yqh_parallel([dict({"op": "c14_enc", "fmt": "xml", "indent": 0, "node": xval_node(d)}, **pf) for d, pf in docs])
+    outs = [vlib.b64d(r["out_b64"]) if ok(r) else None for r in ereq]
+    treq = vlib.yqh_parallel([{"op": "c14_xmltok", "text_b64": vlib.b64e(o or b"")} for o in outs])
+    cases, inputs = [], []
+    for (d, pf), r, o, tr in zip(docs, ereq, outs, treq):
+        rp = {"doc": d, "prefs": pf}
+        chk.count(("xmlmodel-enc", json.dumps(d), json.dumps(pf)), nontrivial=isinstance(d, dict))
+        if r is None or r.get("panic") or r.get("timeout") or r.get("crash") or r.get("harness_error"):
+            cx.viol("xmltok", dict(rp, response=r), "xml encoder crashed")
+            continue
+        if "\\u0000" in json.dumps(d):
+            continue
+        if o is None:
+            obs = b"E"
+        elif tr is None or tr.get("err"):
+            cx.viol("xmltok", dict(rp, impl_out=o.decode("utf-8", "replace"), tokenizer=tr), "encoding/xml cannot tokenise yq's own XML output")
+            continue
+        else:
+            obs = b"O" + b"".join(ser_tok(x) for x in tr["toks"] if not tok_blank(x))
+        p = coq_prefs(pf.get("xml_attr", "+@"), pf.get("xml_content", "+content"))
+        cases.append(("(%s, %s)" % (p, coq_xval(d)), obs))
+        inputs.append(rp)
+    cx.correspond("xmlencode", XML_IMPORTS, "(fun c => xml_encode_obs (fst c) (snd c))", cases, inputs, "Model/Xml.v encode_toks vs encoder_xml.go (output re-tokenised by encoding/xml)")
+    cx.dist["xml_model"] = {"decode_texts": len(texts), "encode_docs": len(docs)}
+
+
+# --------------------------------------------------------------------------
 # TOML (decoder only: the encoder is scalar-only in the code; tokenizer is go-toml's, library contract)
 # --------------------------------------------------------------------------
 import tomllib, math, datetime
